@@ -34,7 +34,7 @@ def one(ctx, spec, case):
 
 def shard(ctx):
     for i in ctx.my_cases(n_cases(ctx.tier)):
-        spec = SC.general_scenario(ctx.rng('case', i), i, ctx.tier)
+        spec = SC.general_scenario(ctx.rng('case', i), i, ctx.tier, extra_prof={'p_nonmultiple_T': 0.15})
         one(ctx, spec, {'kind': 'scenario', 'index': i, 'spec': spec})
 
 
